@@ -34,6 +34,29 @@ class MathShim:
             raise px.ProxyMisuse('sin of a symbolic real: use SAngle')
         return _real_math.sin(a)
 
+    def isclose(self, a, b, *, rel_tol=1e-09, abs_tol=0.0):
+        sym = (px.SReal, px.SInt)
+        if not isinstance(a, sym) and not isinstance(b, sym):
+            return _real_math.isclose(a, b, rel_tol=rel_tol, abs_tol=abs_tol)
+        # documented definition: abs(a-b) <= max(rel_tol * max(abs(a), abs(b)), abs_tol); absolute values are taken by
+        # branching (solver decisions) rather than If-terms, which keeps the queries inside nlsat's comfort zone
+        def _abs(v):
+            if isinstance(v, sym):
+                return -v if v < 0 else v
+            return abs(v)
+        diff = _abs(a - b)
+        aa, ab = _abs(a), _abs(b)
+        big = aa if aa >= ab else ab
+        bound = big * rel_tol
+        if not bound >= abs_tol:
+            bound = abs_tol
+        return bool(diff <= bound)
+
+    def fabs(self, a):
+        if isinstance(a, (px.SReal, px.SInt)):
+            return abs(a)
+        return _real_math.fabs(a)
+
     def atan2(self, y, x):
         if isinstance(y, (px.SReal, px.SInt)) or isinstance(x, (px.SReal, px.SInt)):
             if not isinstance(y, px.SReal):
